@@ -90,13 +90,18 @@ func checkLockPairing(c *Ctx, r *Result, lfs *LockFlows, rule string, funcs []*s
 			paths = append(paths, pps...)
 		}
 		for _, is := range lf.Issues {
+			if pe := lfs.paramEffect(fn); pe != nil {
+				if _, isParamLock := pe[is.Path]; isParamLock && onlyCalledStatically(c, fn) {
+					continue // a release helper: the effect is applied (and checked) at its call sites
+				}
+			}
 			site := sanitizeSite(key + "#" + is.What + ":" + lf.ClassOf[is.Path])
 			pos := c.Pos(c.InstrPos(is.Instr))
 			r.Instance(rule, site, pos, "finding", "release of a lock not held", true)
 			r.Report(Finding{Rule: rule, Site: site, Pos: pos,
 				Msg: fmt.Sprintf("%s: %s is released on a path where it is not held", key, is.Path)})
 		}
-		if len(paths) == 0 && len(lf.Issues) == 0 && acq > 0 {
+		if len(paths) == 0 && acq > 0 {
 			r.Instance(rule, key, c.Pos(fn.Pos()), "ok", fmt.Sprintf("%d acquisition(s), all released on every exit (%d exits)", acq, len(lf.Exit)), true)
 		}
 	}
@@ -133,4 +138,22 @@ func closureAccounted(fn *ssa.Function) bool {
 		}
 	})
 	return ok && !bad
+}
+
+
+// onlyCalledStatically: every use of fn in the module is a static call (or defer) of it.
+func onlyCalledStatically(c *Ctx, fn *ssa.Function) bool {
+	n := c.CHA().Nodes[fn]
+	if n == nil || len(n.In) == 0 {
+		return false
+	}
+	for _, e := range n.In {
+		if e.Site == nil || e.Site.Common().StaticCallee() != fn {
+			return false
+		}
+	}
+	if o := fn.Object(); o != nil && o.Exported() && fn.Signature.Recv() == nil {
+		return false
+	}
+	return true
 }
